@@ -23,7 +23,7 @@ import (
 
 func TestMain(m *testing.M) { kit.Main(m) }
 
-const rule = "node-family scenarios (eager/lazy, 0-2 observing post-processors) plus 0-6 runners over the three ordering classes with drawn Orders (ties, extremes) and a choice 'no failure | runner j fails'; oracle over the shared event log: every runner exactly once (or, with a failing runner, exactly the prefix up to it), every Run after every initialization event, the invocation sequence satisfies the ordering contract, Run returns an error iff a runner failed; non-trivial = >=2 runners of >=2 classes or a failing runner that is not the last; distinct by scenario shape + runner list + failing index; since rounds 7/8 also runners decorated by a post-processor (the decorator is what is started), a definition contributed by a factory post-processor, and a func-tag collector of runners (collecting is not calling)"
+const rule = "node-family scenarios (eager/lazy, 0-2 observing post-processors) plus 0-6 runners over the three ordering classes with drawn Orders (ties, extremes) and a choice 'no failure | runner j fails'; oracle over the shared event log: every runner exactly once (or, with a failing runner, exactly the prefix up to it), every Run after every initialization event, the invocation sequence satisfies the ordering contract, Run returns an error iff a runner failed; non-trivial = >=2 runners of >=2 classes or a failing runner that is not the last; distinct by scenario shape + runner list + failing index; since rounds 7/8 also runners decorated by a post-processor (the decorator is what is started), a definition contributed by a factory post-processor, and a func-tag collector of runners (collecting is not calling); (own process) runners announced through ioc.Register started by ioc.Run with a registry of its own"
 
 type RunPO struct{ zoo.Core }
 
